@@ -50,6 +50,7 @@ class ScanResult:
         self.success = set()  # (known, endvalue)
         self.index = {}       # id(node) -> (node, [safe?...])
         self.parity = {}      # key -> (known, verdict, node)
+        self.args_vals = set()   # (known, kind of the value stored as 'args')
         self.text = None
         self.svar = None
 
@@ -144,6 +145,8 @@ class ScanDomain(Domain):
             a = self.ev(e.func.value, st)
             if a[0] == 'str':
                 return ('str', getattr(a[1], e.func.attr)())
+            if e.func.attr == 'strip':
+                return ('stripped',)
             return UNK
         return UNK
 
@@ -390,6 +393,9 @@ class ScanDomain(Domain):
                 elif isinstance(t, ast.Subscript) and isinstance(
                         t.slice, ast.Constant) and t.slice.value == 'end':
                     ns.env['<end>'] = v
+                elif isinstance(t, ast.Subscript) and isinstance(
+                        t.slice, ast.Constant) and t.slice.value == 'args':
+                    self.res.args_vals.add((st.known, v[0]))
         elif isinstance(stmt, ast.AugAssign) and isinstance(
                 stmt.target, ast.Name):
             ns = st.copy()
